@@ -154,6 +154,19 @@ pub fn residue_vec(n: usize) -> BoxedStrategy<Vec<i16>> {
             v
         }),
         1 => proptest::collection::vec(prop_oneof![Just(0i16), Just(1), Just(q - 1), Just(6144), Just(6145)], n),
+        // two to four terms at positions related by the ring's symmetries (round 12: spectra degenerate there)
+        2 => proptest::collection::vec(
+            (prop_oneof![Just(0usize), Just(n / 2), Just(n / 4), Just(3 * n / 4), Just(n - 1), 0usize..n],
+             prop_oneof![Just(1i16), Just(q - 1), Just(6144i16), Just(6145i16), 1i16..q]),
+            2..=4,
+        )
+        .prop_map(move |es| {
+            let mut v = vec![0i16; n];
+            for (i, c) in es {
+                v[i] = c;
+            }
+            v
+        }),
     ]
     .boxed()
 }
